@@ -23,7 +23,8 @@ Record dump := mkdump {
   d_handles : list (option (Z * Z));                (* per token 1..n: (position of its block in _blocks or -1, index) *)
   d_sizes : list (Z * Z);                           (* per token: cached size *)
   d_len : Z;
-  d_obs : list (list Z)                             (* per token: observers, encoded *)
+  d_obs : list (list Z);                            (* per token: observers, encoded *)
+  d_iters : list (Z * Z * list Z)                   (* probes of iter(a, b): (a, b, 0 :: ids | [1; exception code]) *)
 }.
 
 Record scase := mkscase { c_lf : Z; c_texts : list str; c_steps : list (sop * dump) }.
@@ -63,7 +64,8 @@ Definition dump_of (LF : Z) (n : nat) (s : store) (r : res unit) : dump :=
          (map (fun t => let z := t_size (tget (s_toks s) t) in (line z, col z)) ids)
          (s_len s)
          (map (obs_of LF s) ids
-          ++ [enc_res_optpos (get_first s); enc_res_optpos (get_last s); map Zpos (all_tokens s)]).
+          ++ [enc_res_optpos (get_first s); enc_res_optpos (get_last s); map Zpos (all_tokens s)])
+         [].
 
 Definition zz_eqb (a b : Z * Z) := (fst a =? fst b) && (snd a =? snd b).
 Definition blk_eqb (a b : Z * list Z * (Z * Z) * Z) : bool :=
@@ -75,6 +77,12 @@ Definition dump_eqb (a b : dump) : bool :=
   && list_eqb (opt_eqb zz_eqb) (d_handles a) (d_handles b)
   && list_eqb zz_eqb (d_sizes a) (d_sizes b) && (d_len a =? d_len b)
   && list_eqb (list_eqb Z.eqb) (d_obs a) (d_obs b).
+
+(* the sub-range probes of a dumped step, answered by the model on the state after the step *)
+Definition enc_iter (r : res (list positive)) : list Z :=
+  match r with Ok l => 0 :: map Zpos l | Err e => [1; exn_code e] end.
+Definition iters_ok (s : store) (probes : list (Z * Z * list Z)) : bool :=
+  forallb (fun p => let '(a, b, r) := p in list_eqb Z.eqb (enc_iter (iter_range s (P a) (P b))) r) probes.
 
 Definition step (LF : Z) (s : store) (o : sop) : store * res unit :=
   match o with
@@ -104,7 +112,7 @@ Fixpoint run_steps (LF : Z) (n : nat) (s : store) (steps : list (sop * dump)) : 
   | [] => true
   | (o, d) :: r =>
     let '(s', rr) := step LF s o in
-    dump_eqb (dump_of LF n s' rr) d && run_steps LF n s' r
+    dump_eqb (dump_of LF n s' rr) d && iters_ok s' (d_iters d) && run_steps LF n s' r
   end.
 
 Definition check_case (c : scase) : bool :=
